@@ -57,4 +57,67 @@ TEXT = {
         "design_ref": "§8 C18", "note": "one failing allocation per run; base histories are sampled; known finding: unchecked allocations inside third-party tommy_hashlin",
         "technique": _SIM + "exhaustive single-fault injection over the allocation calls of sampled histories",
     },
+    "C03": {
+        "text": "Whole-system simulation of synchronisations: at every return of rtr_sync a reference walk over the exact bytes the simulated cache "
+                "put on the wire decides whether the response had to succeed (then records = previous + announced - withdrawn, or exactly the "
+                "announced set, and the serial is End of Data's) or to fail (then records unchanged and the next query unchanged, or all gone and "
+                "a Reset Query); other sockets' records must be untouched. Deviations and transport faults are placed at chosen PDUs / calls. "
+                "Sampling of conversations and fault placements; the quick tier does not enumerate single faults exhaustively, hence 'exploration'.",
+        "design_ref": "§8 C03", "note": "trusts the reference walk (harness/world_walk.cpp) and the cache model; rtr_sync observed through -Wl,--wrap",
+        "technique": _SIM + "scripted cache with protocol/transport fault injection, reference-walk oracle at every rtr_sync return",
+    },
+    "C04": {
+        "text": "Hostile byte streams (field edits, lying lengths, raw noise, cuts, three read chunkings) are fed to the real receive path inside "
+                "the simulator built with ASan + UBSan(bounds,null) and assertions on; a crash, deadlock, busy loop or runaway run is a violation, "
+                "malformed-length / unknown-type PDUs must never be applied nor end in success, and the same plan under maximal, 1-byte and random "
+                "read chunking must give identical tables, socket-state sequence and sent bytes (metamorphic replay).",
+        "design_ref": "§8 C04", "note": "sampling; hang detection = simulator deadlock/busy-loop/step/real-time watchdogs",
+        "technique": _SIM + "hostile-stream generation + sanitizers + metamorphic chunking replay",
+    },
+    "C05": {
+        "text": "A session oracle fed only by wire bytes, rtr_sync results and simulated time predicts every query (Reset vs Serial, session, serial "
+                "incl. wrap-around values) across successes, failures, Cache Reset, No-Data, restarts, expiry and stop/start; responses with a "
+                "foreign session id in Cache Response and/or End of Data must fail without touching the tables.",
+        "design_ref": "§8 C05", "note": "trusts the session oracle; +-2 s band around expiry",
+        "technique": _SIM + "wire oracle over multi-exchange conversations",
+    },
+    "C07": {
+        "text": "Simulated clock makes expiry testable: the cache disappears for T seconds around the expire interval (also right after an "
+                "interrupted reload); at the first query after a reconnect later than expire+2 s no record of that socket may exist and the query "
+                "must be a Reset Query; after every stop (operator or failover) the socket's records must be gone, others untouched.",
+        "design_ref": "§8 C07", "note": "earlier removal is not forbidden by the statement and not flagged",
+        "technique": _SIM + "discrete-event clock, unreachability windows, table audit at reconnect and stop",
+    },
+    "C08": {
+        "text": "Bounded liveness: after a generated fault phase the cache answers correctly with a fixed data set; the socket must be ESTABLISHED "
+                "with exactly the cache's records within refresh+expire+4*retry+360 s of simulated time, and no run may deadlock, spin without "
+                "reaching a scheduling point, or exceed its step budget. Runs whose fault phase made the client accept a well-formed but dishonest "
+                "response are not judged.",
+        "design_ref": "§8 C08", "note": "sampling of fault schedules (exploration); bound uses the larger of configured and current intervals",
+        "technique": _SIM + "fault phase then clean tail, progress-within-bound check on the simulated clock",
+    },
+    "C13": {
+        "text": "Wire oracle on the version byte of every query across reconnects: starts at 1, only decreases, each decrease needs a licensed "
+                "trigger (first PDU of a connection in v0, Unsupported-Version report with a lower supported version, hang-up before any session) "
+                "and each trigger must produce the decrease with an immediate reconnect; any other PDU of a foreign version must be answered with "
+                "code 8 and must not be applied; End of Data only in the negotiated version's format.",
+        "design_ref": "§8 C13", "note": "a hang-up after a non-answer (e.g. only a Serial Notify) is treated as permitting but not demanding the downgrade",
+        "technique": _SIM + "wire oracle over version-negotiation conversations",
+    },
+    "C14": {
+        "text": "Every byte the client hands to the transport is parsed (under short writes): complete PDUs, allowed types, length field = bytes "
+                "sent <= 3248, consistent Error Report inner lengths; for every violation the reference walk detects, the Error Report must exist "
+                "(while the connection is writable), carry an allowed code and encapsulate a byte-exact prefix of the offending PDU as the cache "
+                "sent it; Error Reports are never answered.",
+        "design_ref": "§8 C14", "note": "the differential replay for uninitialised bytes is not built yet; stale-buffer echoes are caught by the prefix check",
+        "technique": _SIM + "wire parser + reference walk of offending PDU, per violation class",
+    },
+    "C17": {
+        "text": "After every accepted End of Data the three public interval fields are compared with what the configured mode prescribes "
+                "(boundary values and random 32-bit values, all four modes, v0 never changes them); while established, a consumed Serial Notify must "
+                "be followed by a Serial Query with no simulated time elapsing, polls must come no later than refresh (+2 s), and the receive "
+                "timeout handed to the transport must not exceed the remaining refresh time.",
+        "design_ref": "§8 C17", "note": "init-time range rejection through rtr_mgr_init is covered by the C15 check once built",
+        "technique": _SIM + "interval oracle at rtr_sync return + timing oracle on the simulated clock",
+    },
 }
